@@ -640,3 +640,164 @@ func judgeSide(o *reconlib.Outcome) vrun.Result {
 	x.Stat("faults_fired", int64(o.FaultsFired))
 	return x
 }
+
+// TestC07SlowConsumer: a stream whose application does not read (or an upstream whose acks nobody waits for) must not
+// hold up the other streams of the connection: the per-stream inboxes drop on overflow by design, the dispatchers of
+// the connection never wait for one consumer.
+func TestC07SlowConsumer(t *testing.T) {
+	e := vrun.LoadEnv()
+	meta := vrun.Meta{Property: "C07", Workload: "TestC07SlowConsumer", Total: e.Pick(12, 400),
+		Rule:        "one connection, 1-2 downstreams that are never read (in half of the cases the first of them was closed by the application but the broker never answered the close request and keeps sending) and 1-2 that are read, plus one upstream; the broker sends 1100-2600 chunks (and, in half of the cases, as many metadata messages) to each unread stream - more than its inbox holds - and then 50-200 chunks to every read stream while the upstream writes and closes. Oracle: every read stream returns all of its chunks, in order, within 20 s, the upstream's Close succeeds and its points arrive; the unread streams are only required not to affect the others. non-trivial = at least one unread stream was sent more than 1024 chunks; distinct = scenario tuple",
+		Assumptions: []string{"chunks for a stream whose inbox is full may be dropped (documented buffering); that stream itself is not judged"}}
+	vrun.Loop(t, meta, 4, func(c *vrun.Case) vrun.Result {
+		var res vrun.Result
+		ok, dump := vrun.Watchdog(120*time.Second, func() { res = runSlowConsumer(c) })
+		if !ok {
+			res = vrun.WatchdogVerdict("the case never finished")
+			if res.Verdict == vrun.Inconclusive {
+				res.Witness = map[string]any{"dump_head": dump[:min(len(dump), 3000)]}
+			}
+		}
+		return res
+	})
+}
+
+func runSlowConsumer(c *vrun.Case) vrun.Result {
+	r := c.Rng
+	nUnread, nRead := 1+r.Intn(2), 1+r.Intn(2)
+	flood := 1100 + r.Intn(1500)
+	perRead := 50 + r.Intn(150)
+	withMeta := r.Intn(2) == 0
+	// the first unread stream is a zombie: its application closed it, but the broker never answered the close request
+	// (the client's call ended with its context) and keeps sending chunks for that alias
+	zombie := r.Intn(2) == 0
+	desc := map[string]any{"unread_downstreams": nUnread, "read_downstreams": nRead, "chunks_to_each_unread_stream": flood, "chunks_to_each_read_stream": perRead, "metadata_flood": withMeta, "first_unread_stream_closed_without_close_response": zombie}
+	fail := func(v vrun.Result) vrun.Result { v.Desc = desc; return v }
+	w := world.New()
+	defer w.Close()
+	var withholdClose atomic.Bool
+	w.B.OnMsg = func(lc *broker.LinkCtx, m message.Message, unrel bool) bool {
+		if _, ok := m.(*message.DownstreamCloseRequest); ok && withholdClose.Load() {
+			return true
+		}
+		return false
+	}
+	w.Start()
+	conn, err := w.Connect(iscp.WithConnPingInterval(time.Hour))
+	if err != nil {
+		return fail(vrun.Inconcl("connect: " + err.Error()))
+	}
+	defer conn.Close(context.Background())
+	ctx, cancel := context.WithTimeout(context.Background(), 60*time.Second)
+	defer cancel()
+	filters := func(src string) []*message.DownstreamFilter {
+		return []*message.DownstreamFilter{{SourceNodeID: src, DataFilters: []*message.DataFilter{{Name: "#", Type: "#"}}}}
+	}
+	var downs []*iscp.Downstream
+	for i := 0; i < nUnread+nRead; i++ {
+		d, err := conn.OpenDownstream(ctx, filters(fmt.Sprintf("src-%d", i)), iscp.WithDownstreamQoS(message.QoSUnreliable))
+		if err != nil {
+			return fail(vrun.Inconcl("open downstream: " + err.Error()))
+		}
+		downs = append(downs, d)
+	}
+	rec := uplib.NewRecorder(w.Clock)
+	up, err := conn.OpenUpstream(ctx, "s", append(rec.Options(), iscp.WithUpstreamQoS(message.QoSReliable), iscp.WithUpstreamFlushPolicyImmediately(), iscp.WithUpstreamCloseTimeout(20*time.Second))...)
+	if err != nil {
+		return fail(vrun.Inconcl("open upstream: " + err.Error()))
+	}
+	dss := w.B.Downs()
+	if len(dss) != len(downs) {
+		return fail(vrun.Inconcl("broker did not register every downstream"))
+	}
+	if zombie {
+		withholdClose.Store(true)
+		zctx, zc := context.WithTimeout(ctx, 30*time.Millisecond)
+		_ = downs[0].Close(zctx)
+		zc()
+		withholdClose.Store(false)
+	}
+	lc := w.B.CurrentLink()
+	id := &message.DataID{Name: "d", Type: "t"}
+	chunk := func(alias uint32, src string, seq int) *message.DownstreamChunk {
+		return &message.DownstreamChunk{StreamIDAlias: alias, UpstreamOrAlias: &message.UpstreamInfo{SessionID: "u", SourceNodeID: src, StreamID: broker.StreamIDFor("x", src, 0)},
+			StreamChunk: &message.StreamChunk{SequenceNumber: uint32(seq), DataPointGroups: []*message.DataPointGroup{{DataIDOrAlias: id, DataPoints: []*message.DataPoint{{ElapsedTime: time.Duration(seq), Payload: []byte("p")}}}}}}
+	}
+	// flood the unread streams first
+	for k := 1; k <= flood; k++ {
+		for i := 0; i < nUnread; i++ {
+			lc.Send(chunk(dss[i].Alias, fmt.Sprintf("src-%d", i), k))
+			if withMeta {
+				lc.Send(&message.DownstreamMetadata{RequestID: message.RequestID(100000 + k*4 + i), StreamIDAlias: dss[i].Alias, SourceNodeID: fmt.Sprintf("src-%d", i), Metadata: &message.BaseTime{Name: "m", BaseTime: time.Unix(1, 0).UTC()}})
+			}
+		}
+	}
+	// then the streams that are read, while the upstream works
+	var wg sync.WaitGroup
+	type rres struct {
+		got  []uint32
+		err  string
+		slow bool
+	}
+	results := make([]rres, nRead)
+	for j := 0; j < nRead; j++ {
+		i := nUnread + j
+		for k := 1; k <= perRead; k++ {
+			lc.Send(chunk(dss[i].Alias, fmt.Sprintf("src-%d", i), k))
+		}
+		wg.Add(1)
+		go func(j int, d *iscp.Downstream) {
+			defer wg.Done()
+			for k := 0; k < perRead; k++ {
+				rctx, rc := context.WithTimeout(ctx, 20*time.Second)
+				ch, err := d.ReadDataPoints(rctx)
+				rc()
+				if err != nil {
+					results[j].err = err.Error()
+					results[j].slow = rctx.Err() != nil
+					return
+				}
+				results[j].got = append(results[j].got, ch.SequenceNumber)
+			}
+		}(j, downs[i])
+	}
+	for k := 1; k <= 20; k++ {
+		rec.Write(ctx, up, 1, *id, []int{k}, []int{10})
+	}
+	cctx, cc := context.WithTimeout(ctx, 25*time.Second)
+	closeErr := up.Close(cctx)
+	cc()
+	wg.Wait()
+	for j, rr := range results {
+		if rr.err != "" {
+			return fail(vrun.Violation("a downstream that is being read did not receive its chunks while another stream of the connection was not consumed", "slow-consumer-blocks-other-stream:downstream", map[string]any{"read_stream": j, "received": len(rr.got), "expected": perRead, "error": rr.err, "timed_out": rr.slow}))
+		}
+		for k, s := range rr.got {
+			if s != uint32(k+1) {
+				return fail(vrun.Violation("chunks of a read stream arrived out of order / incomplete next to an unconsumed stream", "slow-consumer-disturbs-other-stream:order", map[string]any{"read_stream": j, "position": k, "got": s}))
+			}
+		}
+	}
+	if closeErr != nil {
+		return fail(vrun.Violation("an upstream could not be closed while a downstream of the same connection was not consumed", "slow-consumer-blocks-other-stream:upstream-close", map[string]any{"error": closeErr.Error()}))
+	}
+	ups := w.B.Ups()
+	pts := 0
+	if len(ups) == 1 {
+		w.B.Lock()
+		for _, ch := range ups[0].Chunks {
+			for _, g := range ch.Groups {
+				pts += len(g)
+			}
+		}
+		w.B.Unlock()
+	}
+	if pts != 20 {
+		return fail(vrun.Violation("an upstream's points did not all arrive while a downstream of the same connection was not consumed", "slow-consumer-blocks-other-stream:upstream-points", map[string]any{"arrived": pts, "written": 20}))
+	}
+	res := vrun.Hold(fmt.Sprintf("%d|%d|%d|%d|%v|%v", nUnread, nRead, flood, perRead, withMeta, zombie), flood > 1024)
+	res.Desc = desc
+	res.Stat("chunks_sent_to_unread_streams", int64(flood*nUnread))
+	res.Stat("chunks_read_next_to_them", int64(perRead*nRead))
+	return res
+}
